@@ -177,7 +177,7 @@ class GroupStatusEncoder(
         return encoding.bool_to_bit(supports_turbo, offset=6)
 
     def _encode_temperature(self, temperature: Optional[float]) -> int:
-        if temperature:
+        if temperature is not None:
             return utils.encode_temperature(temperature)
         return _TEMP_UNAVAILABLE
 
